@@ -566,12 +566,18 @@ def split_multiple_persons_names(names):
 
         # Escaped character.
         if char == "\\":
+            # An escape is a regular (non-whitespace) character: it can start
+            # the next name and it interrupts a partially matched ' and '.
+            if step == NEXT_WORD:
+                spans[-1].append(possible_end)
+                spans.append([pos - 1])
+            step = START_WHITESPACE
             try:
                 next(namesiter)
+                pos += 1
             # If we're at the end of the string, then the \ is just a \.
             except StopIteration:
                 pass
-            pos += 1
             continue
 
         # Change in brace level.
